@@ -4,7 +4,8 @@ varies per run, everything small). Generation happens in the parent and never to
 felupe; validity that needs felupe (dV > 0 after perturbation) is decided in the worker
 and reported as DISCARD(invalid-mesh).
 """
-from .kernel import Streams, pick
+from .kernel import Streams
+from .kernel import pick as kpick
 
 
 def rfloat(r, lo, hi, nd=4):
@@ -171,7 +172,7 @@ def gen_job(seed, profile="general"):
     if dim == 2 and case == "biaxial" and fkind == "Mixed3":
         case = "uniaxial"
     bc = {"case": case}
-    if case == "patch" and pick(seed, "patch-init", 2):
+    if case == "patch" and kpick(seed, "patch-init", 2):
         bc["init"] = "scalar"  # the boundary is created with a scalar value, the ramp hands it arrays
     if case == "uniaxial":
         bc["clamped"] = r.random() < 0.4
@@ -271,7 +272,7 @@ def gen_job(seed, profile="general"):
             ramp.append({"target": "bc:move2", "values": [round(v * 0.5, 6) for v in vals]})
         else:
             mv = vals
-            if case == "custom" and not any(bc["list"][1]["skip"]) and pick(doc["seed"], "vector-ramp", 2) == 0:
+            if case == "custom" and not any(bc["list"][1]["skip"]) and kpick(doc["seed"], "vector-ramp", 2) == 0:
                 # vector-valued ramp (one row per substep): push / pull with a little shear
                 mv = [[v, round(0.3 * v, 6), 0.0][:dim] for v in vals]
             ramp.append({"target": "bc:move", "values": mv})
